@@ -39,6 +39,7 @@ def configs(tier, seed):
     for st in ("A", "B"):
         for R, L in (((4, 2),) if q else ((4, 3), (5, 2)) if st == "A" else ((4, 2), (5, 2), (6, 2))):
             out.append(dict(name="history %s R=%d L=%d" % (st, R, L), h="history", st=st, R=R, L=L))
+    out.append(dict(name="history A R=4 L=%d, id mappings inherited from a larger space" % (1 if q else 2), h="history", st="A", R=4, L=1 if q else 2, inherited=True))
     out.append(dict(name="reveal-guards", h="guards", st="A", R=4))
     out.append(dict(name="set_observed", h="setobs", st="A", R=4))
     out.append(dict(name="set_observed on a screen constructed without observations", h="setobs", st="A", R=4, no_observations=True))
@@ -97,7 +98,9 @@ def _meta(ctx, screen, tag):
 
 def _static(s):
     return dict(tn=s.treatment_names.tolist(), td=s.treatment_doses.tolist(), sn=s.sample_names.tolist(),
-                pn=s.plate_names.tolist(), obs=s.observations.tolist())
+                pn=s.plate_names.tolist(), obs=s.observations.tolist(),
+                sid=[int(x) for x in s.sample_ids.tolist()], tid=[[int(x) for x in r] for r in s.treatment_ids.tolist()],
+                pid=[int(x) for x in s.plate_ids.tolist()])
 
 
 def h_history(ctx, cfg):
@@ -111,7 +114,13 @@ def h_history(ctx, cfg):
     obs = [ctx.real("ob%d" % i) for i in range(R)]
     pstat = {p: ctx.is_true(ctx.bool("pm%d" % k)) for k, p in enumerate(pnames)}
     mask = [pstat[r[5]] for r in rows]
-    s = concrete_screen(ctx, rows, observations=obs, mask=mask)
+    kw = {}
+    if cfg.get("inherited"):
+        # the screen is one part of a larger experiment space (a training screen): its id mappings list a sample and
+        # treatments that do not occur in its rows, and not at the end of the id ranges
+        bigger = concrete_screen(ctx, [("s0", "Z0", 1.0, "a", 0.5, "x")] + list(ROWS[cfg["st"]]))
+        kw = dict(sample_mapping=bigger.sample_mapping, treatment_mapping=bigger.treatment_mapping)
+    s = concrete_screen(ctx, rows, observations=obs, mask=mask, **kw)
     base = _static(s)
     cur_mask = list(mask)
     n_unobs = sum(1 for p in pnames if not pstat[p])
@@ -173,7 +182,7 @@ def h_history(ctx, cfg):
             st = {got[i] for i in range(R) if rows[i][5] == p}
             ctx.prove(len(st) == 1, "every plate is wholly observed or wholly unobserved after each operation")
         after = _static(s2)
-        for f in ("tn", "td", "sn", "pn"):
+        for f in ("tn", "td", "sn", "pn", "sid", "tid", "pid"):
             ctx.prove(after[f] == base[f], "conditions and plate assignment unchanged by the operation", key="field %s changed by %s" % (f, hist[-1][0]))
         ctx.prove(all_same(ctx, after["obs"], base["obs"]), "stored observation values unchanged by the operation", key="observations changed by %s" % hist[-1][0])
         if newly is not None:
